@@ -73,4 +73,33 @@ def copyInto (w : Bytes) (lo hi : Nat) (src : Bytes) : R Bytes := do
   bounds w lo hi
   pure (splice w lo (src.take (hi - lo)))
 
+/-! ## external calls kept as parameters (`tools/encgen/ext.go`; `ipmi.AES128CBC.SerializeTo`)
+
+A local holding `b.Bytes()[lo:]` ALIASES the buffer's array from `lo` on, but only until the next `PrependBytes` /
+`AppendBytes` (which may move the contents to a new array, leaving the local pointing at the old one — defect F13): the
+translator refuses any use of such a local after an allocation, so that an in-place operation through it is an operation
+on what the buffer holds AT THE TIME OF THE CALL. -/
+
+/-- `rand.Read(w)` (crypto/rand; `io.ReadFull` on the entropy source: the error is nil iff all `len(w)` bytes were filled).
+    `drawn` is a PARAMETER of the translated definition: `some bs` = the call fills `w` with the bytes drawn (`bs`; exactly
+    `len(w)` of them are used, missing ones read as 0 so that the definition is total) and returns a nil error; `none` = it
+    returns an error, which the caller returns at once (what `w` holds then is not observable). -/
+def randRead (drawn : Option Bytes) (w : Bytes) : R Bytes :=
+  match drawn with
+  | none => .err
+  | some bs => .ok ((bs ++ List.replicate w.length 0).take w.length)
+
+/-- what the buffer `w` holds after `cipher.NewCBCEncrypter(block, iv).CryptBlocks(v, v)` where `v` aliases `w[lo:]`: the
+    bytes from `lo` on are replaced by `enc iv (the bytes they hold now)`; `crypto/cipher` panics when the IV is not one
+    block (`NewCBCEncrypter`) or the input is not a whole number of blocks (`CryptBlocks`). `enc` (the keyed block cipher
+    in CBC mode) is a PARAMETER of the translated definition; exactly `len(v)` bytes of its result are used (missing ones
+    read as 0), so that the definition is total for any `enc`. -/
+def cryptBlocksInPlace (enc : Bytes → Bytes → Bytes) (blockSize : Nat) (iv : Bytes) (w : Bytes) (lo : Nat) : R Bytes :=
+  if iv.length ≠ blockSize then .panic
+  else if w.length < lo then .panic
+  else if (w.length - lo) % blockSize ≠ 0 then .panic
+  else
+    let pt := w.drop lo
+    .ok (w.take lo ++ (enc iv pt ++ List.replicate pt.length 0).take pt.length)
+
 end Bmc.GoEnc
